@@ -31,7 +31,11 @@ Pages == {[kind |-> "page", n |-> n, pat |-> "mixed", h |-> "b2b", idx |-> i, x 
           : n \in Lens, x \in Xs, i \in 0..70}
 PagesF == {c \in Pages : c.idx * Pow2(c.x) < Max2(1, c.n) /\ (Tier = "thorough" \/ c.idx < 2 \/ (c.idx + 1) * Pow2(c.x) >= c.n)}
 
-Cases == Roots \cup TracesF \cup PagesF
+\* (14.10) paged proofs: one page per 64 exported segments, ceil(n / 64) pages (none for no exports)
+PageCounts == {[kind |-> "pagecount", n |-> n, pat |-> "plain", h |-> "b2b", idx |-> 0, x |-> 6, els |-> <<>>,
+                wantPages |-> (n + 63) \div 64] : n \in {0, 1, 2, 63, 64, 65, 127, 128, 129, 192, 200}}
+
+Cases == Roots \cup TracesF \cup PagesF \cup PageCounts
 ASSUME ndJsonSerialize(OutFile, SetToSeq(Cases))
 GenInit == xx = 0
 GenNext == FALSE /\ xx' = xx
